@@ -201,14 +201,26 @@ pub fn parse(buf: &[u8]) -> RefParse {
     }
     let end = declared + 20;
     let (attrs, tiled) = walk(buf, end);
+    // attributes considered by the ordering rules: those that could be delimited, plus a last one
+    // whose header and value are present and only (part of) its padding is cut off - the rules are
+    // as true of it as the truncation is
+    let mut ordered = attrs.clone();
     if !tiled {
         causes.push(Cause::AttrTruncated);
+        let off = attrs.last().map(|a| a.padded_end()).unwrap_or(20);
+        if off + 4 <= end {
+            let ty = u16::from_be_bytes([buf[off], buf[off + 1]]);
+            let len = u16::from_be_bytes([buf[off + 2], buf[off + 3]]) as usize;
+            if off + 4 + len <= end {
+                ordered.push(RefAttr { ty, start: off, len });
+            }
+        }
     }
     // ordering rules over the attributes that could be delimited
     let mut seen_mi = false;
     let mut seen_sha = false;
     let mut seen_fp = false;
-    for a in &attrs {
+    for a in &ordered {
         let is_tail = a.ty == T_MI || a.ty == T_SHA256 || a.ty == T_FP;
         let seen_integrity = seen_mi || seen_sha;
         if seen_fp {
